@@ -68,9 +68,10 @@ class Elem(object):
 
 class ObjRef(object):
     """another object reachable through a reference member (an iterator's container): its own scalar members and arrays"""
-    def __init__(self, fields, arrays, consts=None):
+    def __init__(self, fields, arrays, name=''):
         self.fields = fields
         self.arrays = set(arrays)
+        self.name = name          # prefix of the array names of this object in the store list ("taskLinks._items")
 
 
 class _Break(Exception):
@@ -124,6 +125,10 @@ class Eval(object):
         self.stores = []
         self.assume = assume
         self.depth = 0
+        self.prefix = ''
+        # when set, two syntactically different index values denote different cells (used for linked-list nodes: a node is never its
+        # own predecessor / successor -- the structural invariant whose preservation over histories is the stated residue of C10)
+        self.distinct_indices = False
 
     def run(self, fn, args):
         env = {}
@@ -135,6 +140,27 @@ class Eval(object):
         except _Ret as r:
             s.ret = r.v
             s.returned = True
+        s.stores = self.stores
+        s.fields = self.fields
+        return s
+
+    def run_ctor(self, fn, args):
+        """constructor: written member initialisers in declaration order, then the body"""
+        env = {}
+        for p, a in zip(fn.params, args):
+            env[p['id']] = a
+        for i in fn.inits:
+            if i['t'] in ('member', 'indirect') and i.get('e') is not None:
+                try:
+                    self.fields[i['name']] = self.ev_or_lv(i['e'], fn, env) if False else self.ev(i['e'], fn, env)
+                except Refuse:
+                    if i.get('written'):
+                        raise
+        s = Summary()
+        try:
+            self.stmt(fn.body, fn, env)
+        except _Ret:
+            pass
         s.stores = self.stores
         s.fields = self.fields
         return s
@@ -247,16 +273,26 @@ class Eval(object):
             return ('var', e['id'])
         if k == 'mem' and ir.strip(e['b'])['k'] == 'this':
             if e['f'] in self.arrays:
-                return ('array', e['f'])
+                return ('array', self.prefix + e['f'])
             return ('field', e['f'])
         if k == 'mem':
-            # a member of an array element (through a subscript or a local reference bound to the element): its own cell
+            # a member of an array element (through a subscript or a local reference bound to the element): its own cell;
+            # a member of another object reached through reference members (iterator -> plan -> plan data): that object's field/array
             try:
                 b = self.lv(e['b'], fn, env)
             except Refuse:
                 b = None
             if isinstance(b, Elem):
                 return Elem(b.array + '.' + e['f'], b.index)
+            if b is not None and not isinstance(b, Elem):
+                try:
+                    o = self.load(b, env) if not (isinstance(b, tuple) and b[0] == 'array') else None
+                except Refuse:
+                    o = None
+                if isinstance(o, ObjRef):
+                    if e['f'] in o.arrays:
+                        return ('array', (o.name + '.' if o.name else '') + e['f'])
+                    return ('ofield', o, e['f'])
         if k == 'idx':
             b = self.lv(e['b'], fn, env)
             if not (isinstance(b, tuple) and b[0] == 'array'):
@@ -268,6 +304,10 @@ class Eval(object):
                 return v
         if k == 'un' and e['op'] == '&':
             return self.lv(e['e'], fn, env)
+        if k == 'call':
+            v = self.ev(e, fn, env)       # an accessor returning a reference to an element
+            if isinstance(v, Elem):
+                return v
         raise Refuse('lvalue ' + ir.pp(e))
 
     def load(self, lv, env):
@@ -280,6 +320,8 @@ class Eval(object):
                         continue
                     if isinstance(i, Sym) and isinstance(lv.index, Sym) and i.name == lv.index.name:
                         continue
+                    if self.distinct_indices:
+                        continue
                     raise Refuse('load of %r after a store to a possibly different element' % lv)
             return Opaque(('entry', lv.array, lv.index))
         if lv[0] == 'var':
@@ -288,6 +330,10 @@ class Eval(object):
             if lv[1] not in self.fields:
                 raise Refuse('member %s' % lv[1])
             return self.fields[lv[1]]
+        if lv[0] == 'ofield':
+            if lv[2] not in lv[1].fields:
+                raise Refuse('member %s of a referenced object' % lv[2])
+            return lv[1].fields[lv[2]]
         raise Refuse('load of %r' % (lv,))
 
     def store(self, lv, v, env):
@@ -297,6 +343,8 @@ class Eval(object):
             env[lv[1]] = v
         elif lv[0] == 'field':
             self.fields[lv[1]] = v
+        elif lv[0] == 'ofield':
+            lv[1].fields[lv[2]] = v
         else:
             raise Refuse('store to %r' % (lv,))
 
@@ -305,6 +353,13 @@ class Eval(object):
         s = ir.strip(e)
         if s['k'] in ('idx',) or (s['k'] == 'var' and isinstance(env.get(s['id']), Elem)):
             return self.lv(s, fn, env)
+        if s['k'] == 'mem':
+            try:
+                l = self.lv(s, fn, env)
+                if isinstance(l, Elem):
+                    return l if False else self.load(l, env)
+            except Refuse:
+                pass
         if s['k'] == 'un' and s['op'] == '&':
             return self.lv(s['e'], fn, env)
         return self.ev(e, fn, env)
@@ -389,6 +444,8 @@ class Eval(object):
             return tgt
         if k in ('tmp', 'definit'):
             return self.ev(e['e'], fn, env)
+        if k == 'init' and len(e.get('es', [])) == 1:
+            return self.ev(e['es'][0], fn, env)
         if k == 'ctor':
             args = [self.ev(a, fn, env) for a in e.get('args', [])]
             if (e.get('copy') or e.get('move')) and len(args) == 1:
@@ -411,13 +468,20 @@ class Eval(object):
                 if o['k'] == 'un' and o['op'] == '*' and ir.strip(o['e'])['k'] == 'this':
                     pass
                 else:
-                    target = self.fields.get(o['f']) if o['k'] == 'mem' and ir.strip(o['b'])['k'] == 'this' else None
+                    target = None
+                    try:
+                        tl = self.lv(o, fn, env)
+                        target = self.load(tl, env) if not isinstance(tl, Elem) else None
+                    except Refuse:
+                        target = None
                     if not isinstance(target, ObjRef):
                         raise Refuse('call on another object: ' + ir.pp(e))
                     sub = Eval(self.F, target.fields, target.arrays, self.assume)
                     sub.stores = self.stores
                     sub.depth = self.depth
                     sub.owner = target
+                    sub.prefix = (target.name + '.') if target.name else ''
+                    sub.distinct_indices = self.distinct_indices
             cenv = {}
             for p, a in zip(g.params, e.get('args', [])):
                 cenv[p['id']] = self.ev_or_lv(a, fn, env) if '&' in (p.get('ty') or '') else self.ev(a, fn, env)
